@@ -82,6 +82,7 @@ NEEDS = {
  "C18-3": ("C18", "sub-agent round 3", "cooling factor stored as 1 - (1 - f): rounded to a multiple of 1.1e-16, so +-11% at f ~ 5e-16 and exactly 0 below 5.5e-17; needs kt_finish/kt_start below ~1e-14 per loop"),
  "C08-3": ("C08", "sub-agent round 3", "StandardBasis::new widens an empty range (max <= min) to min + 1e-3: a chained stage that starts with the ratio exactly on its lower limit 0.1 has the range [0.1, 0.101] and leaves [0.1, starting ratio]; needs a stage starting on the limit and kT > 0"),
  "C19-3": ("C19", "sub-agent round 3", "when the step is frozen at the 1e-4 floor, a loop with few rejections sets step_ratio = 1e-4 * inner_steps/(rejections+1) uncapped: needs inner_steps > 10^4, more than 9.2 * inner_steps all-rejected loops (~1e9 proposals) and then an accepting loop; quick tier silent by construction (inner <= 3000), thorough freeze-thaw part reaches it"),
+ "C20-3": ("C20", "sub-agent round 3", "steps drawn on a parameter whose limits coincide are consumed without a proposal: fewer evaluations than steps minus one inner loop; needs a fixed parameter (cell ratio clamped exactly onto 0.1 by an earlier stage, orthorhombic group, 20:1 shape) and a chained second run"),
  "orig-C01": ("C01", "revert of fix 1743f8c/a3224f8", "original defect: shell count 1..3 from cell aspect/angle"),
  "orig-C02": ("C02", "revert of fix 9c7cce3", "original defect: pairwise inclusion-exclusion area"),
  "orig-C03": ("C03", "revert of fix 69365b2", "original defect: periodic pairs weighted twice"),
